@@ -846,6 +846,14 @@ func (dsc *dataStoreCommand) liveKeyCount() (count int) {
 	return
 }
 
+// removes every key of the data store
+func (dsc *dataStoreCommand) flush() {
+	dsc.lock()
+	defer dsc.unlock()
+
+	dsc.ds.flushUnlocked()
+}
+
 func (dsc *dataStoreCommand) exists(keyNames []string) (output respValue) {
 	dsc.lock()
 	defer dsc.unlock()
